@@ -183,8 +183,287 @@ def abso(x):
     return nn[0] * nn[0] - 2 * nn[1] * nn[1]
 
 
+POW2 = z3.Function("POW2", z3.IntSort(), z3.IntSort())          # 2**n for n >= 0, used through  POW2(0) = 1, POW2(n+1) = 2*POW2(n)
+
+
+def pow2_spec(n):
+    return 2 ** n if isinstance(n, int) else POW2(n)
+
+
+def pow2_axioms(ns):
+    out = [POW2(z3.IntVal(0)) == 1]
+    for n in ns:
+        n = z3.IntVal(n) if isinstance(n, int) else n
+        out.append(z3.Implies(n >= 0, z3.And(POW2(n + 1) == 2 * POW2(n), POW2(n) >= 1)))
+    return out
+
+
+def scale_o(x, k):
+    return tuple(c * k for c in x)
+
+
+def lit_even_axioms(x, m):
+    """instances of the lemma pair LIT-even (proved below by induction):  LIT(x, 2m) == x * 2^m  for m >= 0, and its odd companion
+    LIT(x, 2m+1) == LIT(x*sqrt2, 2m) == (x*sqrt2) * 2^m"""
+    x = tuple(z3.IntVal(c) if isinstance(c, int) else c for c in x)
+    xs = mul_sqrt2(x)
+    return [z3.Implies(m >= 0, z3.And(*[p == q for p, q in zip(lit_spec(x, 2 * m), scale_o(x, pow2_spec(m)))])),
+            z3.Implies(m >= 0, z3.And(*[p == q for p, q in zip(lit_spec(xs, 2 * m), scale_o(xs, pow2_spec(m)))]))] + lit_axioms(x, [2 * m])
+
+
+def is_zero_o(x):
+    return And(*[c == 0 for c in x])
+
+
+def primality_standin(plan, tier, seed):
+    """BOUNDED stand-in: _primality_test against an independent oracle (sympy.isprime) on stratified ranges"""
+    from vf.common import Obligation, Outcome, DISCHARGED, REFUTED, FAULT
+
+    def candidates():
+        import random
+        rng = random.Random(1234 + seed)
+        quick = tier == "quick"
+        yield from range(-3, 30000 if quick else 300000)                                   # exhaustive small range
+        bases = [2, 325, 9375, 28178, 450775, 9780504, 1795265022]
+        import sympy
+        for b in bases:                                                                    # the guard `base % n`: n around / dividing a base
+            yield from range(max(2, b - 40), b + 41)
+            for q in sympy.factorint(b):
+                yield from (q, q * q, b // q)
+            for m in (2, 3, 5):
+                yield from range(b * m - 3, b * m + 4)
+        for k in range(4, 65):                                                             # around powers of two (d, s extraction)
+            yield from range(2 ** k - (24 if quick else 200), 2 ** k + (25 if quick else 201))
+        yield from (2047, 3277, 4033, 4681, 8321, 15841, 29341, 42799, 49141, 52633, 65281, 74665, 80581, 85489, 88357, 90751,      # strong pseudoprimes
+                    561, 1105, 1729, 2465, 2821, 6601, 8911, 10585, 15841, 29341, 41041, 46657, 52633, 62745, 63973, 75361,       # Carmichael numbers
+                    3215031751, 3825123056546413051, 318665857834031151167461, 2152302898747, 3474749660383, 341550071728321)
+        small_primes = list(sympy.primerange(2, 400))
+        for _ in range(300 if quick else 3000):                                            # semiprimes and prime squares near 2^32 / 2^31
+            pq = sympy.nextprime(rng.randrange(2 ** 30, 2 ** 32))
+            yield from (pq * pq, pq * sympy.nextprime(pq), pq * rng.choice(small_primes))
+        for _ in range(3000 if quick else 40000):                                          # random 64-bit, random primes
+            n = rng.getrandbits(rng.choice([20, 31, 32, 40, 48, 56, 63, 64]))
+            yield from (n, n | 1)
+        for _ in range(300 if quick else 3000):
+            yield sympy.nextprime(rng.getrandbits(rng.choice([24, 33, 47, 62])))
+
+    def fn():
+        import importlib
+        import sympy
+        mod = importlib.import_module("pennylane.ops.op_math.decompositions.norm_solver")
+        test = getattr(mod._primality_test, "__wrapped__", mod._primality_test)
+        n_checked = 0
+        for n in candidates():
+            n_checked += 1
+            try:
+                got = bool(test(n))
+            except Exception as ex:  # pylint: disable=broad-except
+                return Outcome(REFUTED, "native+sympy", f"_primality_test({n}) raised {type(ex).__name__}", witness=dict(n=n),
+                               replay=dict(confirmed=True, observed=f"raised {type(ex).__name__}: {ex}", expected=str(sympy.isprime(n)), inputs=dict(n=n)),
+                               extra=dict(bounded=True))
+            want = bool(sympy.isprime(n)) if n >= 0 else False
+            if got != want:
+                return Outcome(REFUTED, "native+sympy", f"_primality_test({n}) == {got}, oracle says {want}", witness=dict(n=n),
+                               replay=dict(confirmed=True, observed=got, expected=want, inputs=dict(n=n)), extra=dict(bounded=True))
+        return Outcome(DISCHARGED, "native+sympy", f"{n_checked} integers agree with sympy.isprime (no counterexample in this bounded set)",
+                       extra=dict(bounded=True))
+    plan.add(Obligation("C16/norm_solver:_primality_test/agrees-with-oracle[bounded]", "standin", fn, bounded=True, func=(NORM, "_primality_test"),
+                        sample="stratified + random integers up to 2^64 against sympy.isprime", timeout=600))
+    plan.fn_under_contract(NORM, "_primality_test")
+
+
+def dyadic_contracts(plan, tier):
+    """DyadicMatrix: the denoted value is (1/sqrt2)^k * [[a, b], [c, d]].  `LIT(x, n)` = x * sqrt2^n in Z[omega] (spec function of this
+    module); two representations (E, K), (R, k) with k <= K denote the same matrix iff LIT(R_i, K - k) == E_i for every entry."""
+    from vf.pyvc.engine import fresh, FloatV, to_int_term, PyList
+    DM = RecT("DyadicMatrix")
+    ENT = ("a", "b", "c", "d")
+    ring = {"ZSqrtTwo": {"a": Int, "b": Int}, "ZOmega": {"a": Int, "b": Int, "c": Int, "d": Int},
+            "DyadicMatrix": {"a": ZO, "b": ZO, "c": ZO, "d": ZO, "k": Int}}
+
+    def b_allclose(it, args, kw):
+        """np.allclose([integers], 0)  <=>  every integer is 0   (assumed contract of numpy on exact integers)"""
+        xs, ref = args
+        if ref != 0:
+            raise Unsupp("np.allclose against a non-zero reference")
+        r = True
+        for x in it.iter_concrete(xs):
+            r = it.and_(r, it.equal(x, 0))
+        return r
+
+    def b_math_pow(it, args, kw):
+        """math.pow(2, e) for an INTEGER e >= 0: the exact power of two (every 2^e with e <= 1023 is a binary64 number),
+        OverflowError beyond; other bases / exponents are refused (-> bounded native stand-in)"""
+        base, e = args
+        if base != 2 or isinstance(e, (FloatV, float)):
+            raise Unsupp("math.pow with a base other than 2 or a non-integer exponent")
+        et = to_int_term(e)
+        if not it.ctx.branch(et >= 0):
+            raise Unsupp("math.pow(2, negative)")
+        if it.ctx.branch(et >= 1024):
+            raise RaiseExc("OverflowError")
+        for ax in pow2_axioms([et]):
+            it.ctx.assume(ax)
+        return FloatV(z3.ToReal(POW2(et)), POW2(et))
+
+    def entries(m):
+        return [vo(getattr(m, e)) for e in ENT]
+
+    def all_zero(es):
+        return And(*[is_zero_o(x) for x in es])
+
+    def denotes(r, es, K):
+        """the DyadicMatrix r denotes (1/sqrt2)^K * es  and is what normalize makes of it"""
+        rs = entries(r)
+        if isinstance(K, int) and isinstance(r.k, int) and r.k > K:
+            return False
+        return Or(And(all_zero(es), all_zero(rs), r.k == 0),
+                  And(r.k <= K, *[eqv(lit_spec(x, K - r.k), y) for x, y in zip(rs, es)]))
+
+    def mc_init(it, args, kwargs):
+        """DyadicMatrix(a, b, c, d, k) by the contract of __init__ (verified below): the normalised representation of the same value"""
+        env = it.bind(wd.classes["DyadicMatrix"].methods["__init__"], args, kwargs)
+        self_, ctx = env["self"], it.ctx
+        es = [vo(env[e]) for e in ENT]
+        for e in ENT:
+            self_.f[e] = fresh(ctx, ZO, f"norm.{e}")
+        self_.f["k"] = z3.Int(ctx.fresh_name("norm.k"))
+        ctx.assume(S.to_z3(denotes(self_, es, env["k"])))
+        return None
+
+    def mc_normalize(it, args, kwargs):
+        (self_,) = args
+        es, K, ctx = entries(self_), self_.k, it.ctx
+        for e in ENT:
+            self_.f[e] = fresh(ctx, ZO, f"norm.{e}")
+        self_.f["k"] = z3.Int(ctx.fresh_name("norm.k"))
+        ctx.assume(S.to_z3(denotes(self_, es, K)))
+        return None
+    xb = {"np.allclose": b_allclose, "math.pow": b_math_pow}
+    w_norm = World(RINGS, classes=ring, extra_builtins=xb)
+    w_init = World(RINGS, classes=ring, extra_builtins=xb, modular={"DyadicMatrix.normalize": mc_normalize})
+    wd = World(RINGS, classes=ring, extra_builtins=xb, modular={"DyadicMatrix.__init__": mc_init})
+
+    # ---- normalize: loop invariant  LIT(entry, k0 - k) == entry0  (value (1/sqrt2)^k * M preserved by every iteration) --------------------
+    def norm_inv(v):
+        cur, old = v.self, v.old.self
+        return And(cur.k <= old.k, *[eqv(lit_spec(x, old.k - cur.k), y) for x, y in zip(entries(cur), entries(old))])
+
+    def norm_axioms(v):
+        cur, old = v.self, v.old.self
+        D = old.k - cur.k
+        out = []
+        for x in entries(cur):
+            out += lit_axioms(x, [D - 1]) + lit_axioms(mul_sqrt2(x), [D - 2]) + lit_axioms(x, [])
+        return out
+    fc_norm = FnContract(w_norm, "DyadicMatrix.normalize", [
+        Case("", {"self": DM}, ensures=lambda o, r, nw: denotes(nw.self, entries(o.self), o.self.k),
+             axioms=lambda o, r, nw: [ax for x in entries(nw.self) for ax in lit_axioms(x, [])],
+             loops={0: LoopSpec(norm_inv, axioms=norm_axioms), 1: LoopSpec(norm_inv, axioms=norm_axioms)})])
+
+    def native_ctor(mod, a):
+        a["self"] = mod.DyadicMatrix(a["a"], a["b"], a["c"], a["d"], a["k"])
+        return None
+    fc_init = FnContract(w_init, "DyadicMatrix.__init__", [
+        Case("", {"self": DM, "a": ZO, "b": ZO, "c": ZO, "d": ZO, "k": Int}, native_call=native_ctor,
+             ensures=lambda o, r, nw: denotes(nw.self, [vo(o.a), vo(o.b), vo(o.c), vo(o.d)], o.k))])
+
+    # ---- operators: the result denotes the product / sum / scalar multiple / conjugate of the denoted values -----------------------------
+    def matmul_entries(x, y):
+        A, B = entries(x), entries(y)
+        return [addo(mulo(A[0], B[0]), mulo(A[1], B[2])), addo(mulo(A[0], B[1]), mulo(A[1], B[3])),
+                addo(mulo(A[2], B[0]), mulo(A[3], B[2])), addo(mulo(A[2], B[1]), mulo(A[3], B[3]))]
+
+    def sum_entries(x, y):
+        """entries of x + y over the larger exponent K (the smaller-exponent operand is multiplied by sqrt2^(K - k))"""
+        big, small = (x, y) if S.truth(x.k >= y.k) else (y, x)
+        return [addo(p, lit_spec(q, big.k - small.k)) for p, q in zip(entries(big), entries(small))], big.k
+
+    def add_post(o, r, nw):
+        x, y = o.self, o.other
+        if isinstance(x.k, int) and isinstance(y.k, int):
+            es, K = sum_entries(x, y)
+            return denotes(r, es, K)
+        es1 = [addo(p, lit_spec(q, x.k - y.k)) for p, q in zip(entries(x), entries(y))]
+        es2 = [addo(p, lit_spec(q, y.k - x.k)) for p, q in zip(entries(y), entries(x))]
+        return If(x.k >= y.k, denotes(r, es1, x.k), denotes(r, es2, y.k))
+
+    def add_axioms(o, r, nw):
+        x, y = o.self, o.other
+        out = []
+        for big, small in ((x, y), (y, x)):
+            g = big.k - small.k
+            m = z3.If(g >= 0, g / 2, 0)
+            for q in entries(small):
+                out += [z3.Implies(g >= 0, ax) for ax in lit_even_axioms(q, m)] + [z3.Implies(g >= 0, ax) for ax in lit_axioms(q, [2 * m])]
+            out += pow2_axioms([m])
+        return out
+
+    def add_overflows(o):
+        g = absdiff(o.self.k, o.other.k)
+        return S.fdiv(g, 2) >= 1024
+
+    def absdiff(a, b):
+        return If(a >= b, a - b, b - a)
+    fc_add = FnContract(wd, "DyadicMatrix.__add__", [
+        Case("other:DyadicMatrix", {"self": DM, "other": DM}, ensures=add_post, axioms=add_axioms,
+             raises={"OverflowError": add_overflows}, must_return=lambda o: Not(add_overflows(o))),
+        Case("other:str", {"self": DM, "other": Str}, raises={"TypeError": lambda o: True})])
+    fc_matmul = FnContract(wd, "DyadicMatrix.__matmul__", [
+        Case("other:DyadicMatrix", {"self": DM, "other": DM},
+             ensures=lambda o, r, nw: denotes(r, matmul_entries(o.self, o.other), o.self.k + o.other.k)),
+        Case("other:int", {"self": DM, "other": Int}, raises={"TypeError": lambda o: True})])
+    fc_mul = FnContract(wd, "DyadicMatrix.__mul__", [
+        Case("other:int", {"self": DM, "other": Int},
+             ensures=lambda o, r, nw: denotes(r, [scale_o(x, o.other) for x in entries(o.self)], o.self.k)),
+        Case("other:ZOmega", {"self": DM, "other": ZO},
+             ensures=lambda o, r, nw: denotes(r, [mulo(x, vo(o.other)) for x in entries(o.self)], o.self.k))])
+    fc_conj = FnContract(wd, "DyadicMatrix.conj", [
+        Case("", {"self": DM}, ensures=lambda o, r, nw: denotes(r, [conjo(x) for x in entries(o.self)], o.self.k))])
+    fc_adj2 = FnContract(wd, "DyadicMatrix.adj2", [
+        Case("", {"self": DM}, ensures=lambda o, r, nw: denotes(r, [adj2o(x) for x in entries(o.self)], o.self.k))])
+
+    # mult2k(k): the denoted value is multiplied by 2^k, i.e. the entries stay and the exponent drops by 2k
+    def same_value(r, es, D):
+        """r denotes (1/sqrt2)^D * es  (either exponent may be the larger one)"""
+        rs = entries(r)
+        hi = And(*[eqv(lit_spec(x, D - r.k), y) for x, y in zip(rs, es)])
+        lo = And(*[eqv(lit_spec(y, r.k - D), x) for x, y in zip(rs, es)])
+        if isinstance(D, int) and isinstance(r.k, int):
+            return hi if D >= r.k else lo
+        return If(D >= r.k, hi, lo)
+    fc_mult2k = FnContract(wd, "DyadicMatrix.mult2k", [
+        Case("k:int", {"self": DM, "k": Int}, requires=lambda a: Not(all_zero(entries(a.self))),
+             ensures=lambda o, r, nw: same_value(r, entries(o.self), o.self.k - 2 * o.k),
+             raises={"OverflowError": lambda o: True})])
+    for fc in (fc_norm, fc_init, fc_add, fc_matmul, fc_mul, fc_conj, fc_adj2, fc_mult2k):
+        plan.fn_under_contract(fc.world.file, fc.qualname)
+        for ob in obligations_for("C16", fc, tier):
+            plan.add(ob)
+
+    # LIT-even: LIT(x, 2m) == x * 2^m by induction on m (for all x: the hypothesis is used at 2x)
+    a_, b_, c_, d_ = z3.Ints("a b c d")
+    X = (a_, b_, c_, d_)
+    mm = z3.Int("m")
+
+    def EQ(p_, q_):
+        return z3.And(*[u == v for u, v in zip(p_, q_)])
+    plan.add(lemma("C16", "ZOmega/LIT-even:LIT(x,2m)==x*2^m/base", list(X), EQ(lit_spec(X, z3.IntVal(0)), scale_o(X, POW2(z3.IntVal(0)))),
+                   assumptions=lit_axioms(X, []) + pow2_axioms([])))
+    X2 = scale_o(X, 2)
+    plan.add(lemma("C16", "ZOmega/LIT-even:LIT(x,2m)==x*2^m/step", list(X) + [mm], EQ(lit_spec(X, 2 * (mm + 1)), scale_o(X, POW2(mm + 1))),
+                   assumptions=[mm >= 0, EQ(lit_spec(X2, 2 * mm), scale_o(X2, POW2(mm)))] + lit_axioms(X, [2 * mm + 1])
+                   + lit_axioms(mul_sqrt2(X), [2 * mm]) + pow2_axioms([mm])))
+    plan.assumed_contracts += ["np.allclose([exact integers], 0) <=> all of them are 0",
+                               "math.pow(2, e) for integer 0 <= e <= 1023 is the exact power of two (binary64), OverflowError for e >= 1024"]
+
+
 def build(tier, seed):
     plan = Plan("C16", level="proof")
+    try:
+        import pennylane  # noqa: F401  (loaded once: the forked obligation workers replay counter-models on the real code)
+    except Exception:  # pylint: disable=broad-except
+        pass
     plan.explanation = ("The real method bodies of rings.py are extracted with ast on every run and executed symbolically "
                         "(all paths); each postcondition `view(result) == spec(view(args))` is a z3 VC over unbounded integers; "
                         "ring laws are polynomial identities over the spec functions.")
@@ -446,6 +725,8 @@ def build(tier, seed):
     plan.add(lemma("C16", "ZOmega/LIT==mul-by-sqrt2-power/step", list(XO) + [nn], step,
                    assumptions=[nn >= 0, ih] + lit_axioms(XO, [nn]) + powo_axioms(SQRT2_O, [nn])))
     # |x|^2-type norm of ZOmega (the integer __abs__) is multiplicative: degree-8 identity
-    plan.unverified = ["_primality_test vs an oracle (bounded stand-in only, thorough tier)", "termination of the loops",
+    dyadic_contracts(plan, tier)
+    primality_standin(plan, tier, seed)
+    plan.unverified = ["termination of the loops",
                        "np.isclose branches of __eq__ (float comparands are outside the ring property)"]
     return plan
